@@ -125,15 +125,9 @@ func (vc *VC) runAnchors(f *Frame, st *State, in ssa.Instruction, after bool) {
 			return
 		}
 	}
-	ci, ok := in.(ssa.CallInstruction)
+	name, ord, ok := vc.anchorNameOrd(in)
 	if !ok {
 		return
-	}
-	name := calleeName(ci.Common())
-	a := vc.anchorOf(in) // call:name#k
-	ord := 0
-	if j := strings.LastIndex(a, "#"); j >= 0 {
-		fmt.Sscanf(a[j+1:], "%d", &ord)
 	}
 	for _, as := range vc.c.Asserts {
 		if as.Anchor.Callee == name && as.Anchor.Ordinal == ord && as.After == after {
@@ -150,7 +144,9 @@ func (vc *VC) runAnchors(f *Frame, st *State, in ssa.Instruction, after bool) {
 	for _, g := range vc.c.Ghosts {
 		if g.Anchor.Callee == name && g.Anchor.Ordinal == ord && g.After == after {
 			vc.anchorHit(g.Anchor.Callee, g.Anchor.Ordinal, g.After)
+			vc.ghostAt = in
 			vc.execGhost(f, st, g)
+			vc.ghostAt = nil
 		}
 	}
 }
@@ -189,6 +185,10 @@ func (vc *VC) execGhost(f *Frame, st *State, g *GhostStmt) {
 	}
 	if rhsT == tNil {
 		rhs = vc.env.Zero(gf.typ)
+	}
+	// a ghost update is a write like any other: it must stay inside the declared frame
+	if vc.ghostAt != nil {
+		vc.checkFrame(st, gf.heap, gf.sort, obj, vc.ghostAt)
 	}
 	h := st.Heap(vc, gf.heap, gf.sort)
 	if key != nil {
@@ -947,5 +947,54 @@ func (vc *VC) checkAnchors() {
 		seen[k] = true
 		vc.oblige(vc.entry, "assert", fmt.Sprintf("call:%s#%d:missing:ghost", g.Anchor.Callee, g.Anchor.Ordinal), False, vc.c.Props,
 			fmt.Sprintf("ghost update %s call %s#%d cannot be placed: the call it is anchored to no longer occurs in the function", when(g.After), g.Anchor.Callee, g.Anchor.Ordinal), vc.fn.Pos())
+	}
+}
+
+// anchorNameOrd gives the (name, ordinal) under which ghost statements and assertions address an instruction.
+func (vc *VC) anchorNameOrd(in ssa.Instruction) (string, int, bool) {
+	name := ""
+	switch ci := in.(type) {
+	case ssa.CallInstruction:
+		name = calleeName(ci.Common())
+	case *ssa.MapUpdate:
+		name = "mapupdate" // ghost/assert before|after mapupdate#k: the k-th map update of the function
+	default:
+		return "", 0, false
+	}
+	a := vc.anchorOf(in) // call:name#k
+	ord := 0
+	if j := strings.LastIndex(a, "#"); j >= 0 {
+		fmt.Sscanf(a[j+1:], "%d", &ord)
+	}
+	return name, ord, true
+}
+
+// ghostHeapsAt adds the ghost heaps that ghost statements anchored at `in` may write (by field name: an
+// over-approximation that does not need a state).
+func (vc *VC) ghostHeapsAt(in ssa.Instruction, heaps map[string]Sort) {
+	if vc.c == nil || len(vc.c.Ghosts) == 0 {
+		return
+	}
+	name, ord, ok := vc.anchorNameOrd(in)
+	if !ok {
+		return
+	}
+	for _, g := range vc.c.Ghosts {
+		if g.Anchor.Callee != name || g.Anchor.Ordinal != ord {
+			continue
+		}
+		lhs := g.LHS
+		if ix, isIx := lhs.(EIndex); isIx {
+			lhs = ix.X
+		}
+		fe, isField := lhs.(EField)
+		if !isField {
+			continue
+		}
+		for _, gi := range vc.p.ghosts {
+			if gi.g.Name == fe.Name {
+				heaps[gi.heap] = gi.sort
+			}
+		}
 	}
 }
